@@ -689,22 +689,20 @@ Print Assumptions C01_dir_len_unfolds.
 (* (11) the four shipped providers keep dimensions; hypotheses = the providers' own preconditions only:
      LBFGSDirection: none (memory < 1 makes initialize throw);  NoopDirection: none;
      AndersonDirection: memory >= 1 (any n, incl. n = 0; I0 holds for the default-constructed provider: C01_anderson_as_constructed);
-     StructuredLBFGSDirection: memory >= 1, the capability checks of initialize (struct_init_ok), CBFGS off (apply_masked throws with CBFGS) *)
+     StructuredLBFGSDirection: none (memory < 1 or a failing capability check make initialize throw, CBFGS makes apply_masked throw;
+     dir_len only speaks about calls that return) *)
 Theorem C01_shipped_providers_keep_dimensions : forall (n : nat),
   (forall pw (LP : Lbfgs.params R) rescale, dir_len n (Lbfgs.state R) (lbfgs_dir n pw LP rescale) (fun _ => True) (LIv n LP)) /\
   dir_len n unit (noop_dir (T:=R)) (fun _ => True) (fun _ => True) /\
   (forall mem mdf rescale, (1 <= mem)%nat -> dir_len n (aast R) (anderson_dir n mem mdf rescale) (anderson_I0 n) (anderson_Iv n)) /\
   (forall pw (LP : Lbfgs.params R) lb ub l1 Dlb Dub prov_inactive prov_hess_L prov_hess_psi prov_box_D prov_grad_gi
           grad_psi_at hess_L_prod hess_psi_prod eval_g grad_gi cbrt_eps hvf fd full_aug use_scaled,
-     (1 <= p_memory LP)%nat ->
-     struct_init_ok prov_inactive prov_hess_L prov_hess_psi prov_box_D prov_grad_gi hvf fd full_aug = true ->
-     cbfgs_on LP = false ->
      dir_len n (sdstate (T:=R))
              (struct_dir n pw LP lb ub l1 Dlb Dub prov_inactive prov_hess_L prov_hess_psi prov_box_D prov_grad_gi
                          grad_psi_at hess_L_prod hess_psi_prod eval_g grad_gi cbrt_eps hvf fd full_aug use_scaled)
              (fun _ => True) (SIv n LP)).
 Proof.
-  intros n. split; [exact (lbfgs_len n)|]. split; [exact (noop_len n)|]. split; [exact (anderson_len n)|exact (struct_len n)].
+  intros n. split; [exact (lbfgs_len n)|]. split; [exact (noop_len n)|]. split; [exact (anderson_len n)|exact (struct_len_all n)].
 Qed.
 Print Assumptions C01_shipped_providers_keep_dimensions.
 
@@ -775,16 +773,14 @@ Section ShippedStacks.
              Hprov Hempty Hl1 Hcrit HLg HL HClb HCub HCne Hgf Hgg Hg HDlb HDub HDne mem mdf rescale Hmem d0 outer_fuel nanv Σ0 y0 x0 co Hd0 H1 H2 H3 H4 H5).
   Qed.
 
-  (* ALMSolver<PANOCSolver<StructuredLBFGSDirection>>: memory >= 1, capability checks, CBFGS off; every other parameter (Hessian-vector
-     term in all variants with ARBITRARY Hessian / gradient members, both failure policies), every box / l1 data the provider is given,
-     any provider state d0 *)
+  (* ALMSolver<PANOCSolver<StructuredLBFGSDirection>>: NO hypothesis about the direction — every LBFGSParams and direction parameter
+     (Hessian-vector term in all variants with ARBITRARY Hessian / gradient members, both failure policies), every box / l1 data the
+     provider is given, any provider state d0.  The provider's throw conditions (memory < 1, a failing capability check of initialize,
+     CBFGS in apply_masked) need not be excluded: a run in which a provider call throws has no result, the statement is about completed runs *)
   Theorem C01_alm_panoc_struclbfgs_converged_is_kkt :
     forall pw (LP : Lbfgs.params R) slb sub sl1 Dlb Dub prov_inactive prov_hess_L prov_hess_psi prov_box_D prov_grad_gi
-           grad_psi_at hess_L_prod hess_psi_prod eval_g grad_gi cbrt_eps hvf fd full_aug use_scaled,
-    (1 <= p_memory LP)%nat ->
-    struct_init_ok prov_inactive prov_hess_L prov_hess_psi prov_box_D prov_grad_gi hvf fd full_aug = true ->
-    cbfgs_on LP = false ->
-    forall (d0 : sdstate (T:=R)) outer_fuel nanv Σ0 y0 x0 co, alm_run_hyps Σ0 y0 x0 ->
+           grad_psi_at hess_L_prod hess_psi_prod eval_g grad_gi cbrt_eps hvf fd full_aug use_scaled
+           (d0 : sdstate (T:=R)) outer_fuel nanv Σ0 y0 x0 co, alm_run_hyps Σ0 y0 x0 ->
     alm_panoc_dir Pb prov wm_supplied Clb Cub l1 split (sdstate (T:=R))
                   (struct_dir n pw LP slb sub sl1 Dlb Dub prov_inactive prov_hess_L prov_hess_psi prov_box_D prov_grad_gi
                               grad_psi_at hess_L_prod hess_psi_prod eval_g grad_gi cbrt_eps hvf fd full_aug use_scaled)
@@ -792,10 +788,10 @@ Section ShippedStacks.
     f_status (co_final co) = Converged ->
     kkt_point Pb Clb Cub n m (p_tol AP) (p_dual_tol AP) (co_x co) (f_y (co_final co)).
   Proof.
-    intros pw LP slb sub sl1 Dlb Dub b1 b2 b3 b4 b5 f1 f2 f3 f4 f5 ce hvf fd fa us A1 A2 A3 d0 outer_fuel nanv Σ0 y0 x0 co (H1 & H2 & H3 & H4 & H5).
+    intros pw LP slb sub sl1 Dlb Dub b1 b2 b3 b4 b5 f1 f2 f3 f4 f5 ce hvf fd fa us d0 outer_fuel nanv Σ0 y0 x0 co (H1 & H2 & H3 & H4 & H5).
     exact (alm_panoc_struclbfgs_converged_is_kkt Pb prov wm_supplied Clb Cub l1 split stop_req time_up outer_oot PP AP ls_fuel inner_fuel n m
              Hprov Hempty Hl1 Hcrit HLg HL HClb HCub HCne Hgf Hgg Hg HDlb HDub HDne pw LP slb sub sl1 Dlb Dub b1 b2 b3 b4 b5 f1 f2 f3 f4 f5 ce hvf fd fa us
-             A1 A2 A3 d0 outer_fuel nanv Σ0 y0 x0 co H1 H2 H3 H4 H5).
+             d0 outer_fuel nanv Σ0 y0 x0 co H1 H2 H3 H4 H5).
   Qed.
 
   (* (13) ALM ∘ ZeroFPR with a stateful provider (AlmZeroFprDir.alm_zerofpr_dir), generically *)
@@ -852,11 +848,8 @@ Section ShippedStacks.
 
   Theorem C01_alm_zerofpr_struclbfgs_converged_is_kkt :
     forall pw (LP : Lbfgs.params R) slb sub sl1 Dlb Dub prov_inactive prov_hess_L prov_hess_psi prov_box_D prov_grad_gi
-           grad_psi_at hess_L_prod hess_psi_prod eval_g grad_gi cbrt_eps hvf fd full_aug use_scaled,
-    (1 <= p_memory LP)%nat ->
-    struct_init_ok prov_inactive prov_hess_L prov_hess_psi prov_box_D prov_grad_gi hvf fd full_aug = true ->
-    cbfgs_on LP = false ->
-    forall (d0 : sdstate (T:=R)) outer_fuel nanv Σ0 y0 x0 co, alm_run_hyps Σ0 y0 x0 ->
+           grad_psi_at hess_L_prod hess_psi_prod eval_g grad_gi cbrt_eps hvf fd full_aug use_scaled
+           (d0 : sdstate (T:=R)) outer_fuel nanv Σ0 y0 x0 co, alm_run_hyps Σ0 y0 x0 ->
     alm_zerofpr_dir Pb prov wm_supplied Clb Cub l1 split (sdstate (T:=R))
                     (struct_dir n pw LP slb sub sl1 Dlb Dub prov_inactive prov_hess_L prov_hess_psi prov_box_D prov_grad_gi
                                 grad_psi_at hess_L_prod hess_psi_prod eval_g grad_gi cbrt_eps hvf fd full_aug use_scaled)
@@ -864,10 +857,10 @@ Section ShippedStacks.
     f_status (co_final co) = Converged ->
     kkt_point Pb Clb Cub n m (p_tol AP) (p_dual_tol AP) (co_x co) (f_y (co_final co)).
   Proof.
-    intros pw LP slb sub sl1 Dlb Dub b1 b2 b3 b4 b5 f1 f2 f3 f4 f5 ce hvf fd fa us A1 A2 A3 d0 outer_fuel nanv Σ0 y0 x0 co (H1 & H2 & H3 & H4 & H5).
+    intros pw LP slb sub sl1 Dlb Dub b1 b2 b3 b4 b5 f1 f2 f3 f4 f5 ce hvf fd fa us d0 outer_fuel nanv Σ0 y0 x0 co (H1 & H2 & H3 & H4 & H5).
     exact (alm_zerofpr_struclbfgs_converged_is_kkt Pb prov wm_supplied Clb Cub l1 split stop_req time_up outer_oot PP from_prox AP ls_fuel inner_fuel n m
              Hprov Hempty Hl1 Hcrit HLg HL HClb HCub HCne Hgf Hgg Hg HDlb HDub HDne pw LP slb sub sl1 Dlb Dub b1 b2 b3 b4 b5 f1 f2 f3 f4 f5 ce hvf fd fa us
-             A1 A2 A3 d0 outer_fuel nanv Σ0 y0 x0 co H1 H2 H3 H4 H5).
+             d0 outer_fuel nanv Σ0 y0 x0 co H1 H2 H3 H4 H5).
   Qed.
 
   (* (14) the provider object survives: after ANY completed ALM run (whatever its status) from a sane provider, the provider is sane again
